@@ -191,9 +191,19 @@ package state
 //@   guarded sessions by sessionsLock
 //@   invariant sessions-by-address [C07]: forall ip netip.Addr :: has(self.sessions, ip) ==> (self.sessions[ip] != nil && self.sessions[ip].id == ip)
 //@   invariant session-map [C13]: self.sessions != nil
+// Looking a session up touches nothing of an existing session but its activity time stamp (and its lock): in
+// particular neither its keys nor its replay memory.
 //@ func State.GetSession
-//@   modifies any("F|state.Session"), any("F|storage."), any("MP|map[net/netip.Addr]*state.Session")
+//@   modifies any("F|state.Session|lastActivity"), any("F|state.Session|lock"), any("F|storage."), any("MP|map[net/netip.Addr]*state.Session")
 //@   ensures session-of-that-address [C07]: result != nil ==> result.id == ip && result.address != nil && result.address.IP == ip && result.address.verified
+
+// Replacing or clearing the encryption session of a router (hello response, "no encryption keys" error ping) touches
+// nothing else of its session: in particular not the replay memory of signed frames (C07: a replayed older signed
+// ping must stay refused afterwards).
+//@ func State.SetEncryptionSession
+//@   modifies any("F|state.Session|encryption"), any("F|state.Session|lastActivity"), any("F|state.Session|lock"), any("F|storage."), any("MP|map[net/netip.Addr]*state.Session")
+//@ func Session.SetEncryptionSession
+//@   modifies s.encryption, s.lock
 
 // Environment of the handshake: storage and key-exchange internals (ECDH, BLAKE3) are not modelled; these calls are
 // assumed not to touch frames, links or the configuration.
@@ -234,6 +244,7 @@ package state
 // keyed with the half that is recorded as its key.
 //@ func EncryptionSession.initFinalize
 //@   requires s != nil
+//@   ensures prepared-key-of-the-old-exchange-dropped [C15,C02]: result == nil ==> s.nextInCipher == nil
 //@   ensures directions-keyed-apart [C05,C04]: result == nil ==> s.inCipher != nil && s.outCipher != nil && aeadkey(s.inCipher) == base(s.inKey) && aeadkeyoff(s.inCipher) == off(s.inKey) && aeadkey(s.outCipher) == base(s.outKey) && aeadkeyoff(s.outCipher) == off(s.outKey) && len(s.inKey) == 32 && len(s.outKey) == 32 && base(s.inKey) == base(s.outKey) && off(s.inKey) != off(s.outKey)
 
 // The memory of accepted signed-frame timestamps lives in the session object. Dropping a session that has accepted
